@@ -447,6 +447,18 @@ def step (st : State) (line : String) : State × String :=
       | .ok t => some t
       | .error _ => none
     pure (translateLine dflt complete met dna)
+  | ["c_trreg", i, complete, met] =>      -- translate the nucleotide sequence in register `i` (it may hold invalid codes)
+    match st.table, i.toNat?.bind (st.regs[·]?) with
+    | some t, some s =>
+      if s.alph ≠ Gen.C03.nucUnamb.map toString then pure (errS .alphabetError)
+      else if complete == "1" then
+        pure (showE ((translateComplete t s.codes).map fun p => bytesToString (p.filterMap (prot[·]?))))
+      else
+        match indexOf? prot 42, indexOf? prot 77 with
+        | some stopC, some metC => pure (showE ((translateOrfs t stopC metC (met == "1") s.codes).map showOrfs))
+        | _, _ => pure (errS .alphabetError)
+    | none, _ => pure "ERR:notable"
+    | _, none => pure "ERR:noreg"
   | ["c_dict"] => pure (match st.table with | some t => "ok " ++ showTable t | none => "ERR:notable")
   | ["c_eq2"] =>
     pure (match st.table, st.table2 with
